@@ -214,6 +214,25 @@ def tab1(units, R, unit_name='cJSON.c', claim=('parse_value', 'cJSON_Duplicate_r
     for fn in u.function_list:
         g[fn.name] = {callee_name(c) for c in fn.calls() if callee_name(c) in u.functions}
     sccs = [c for c in _sccs(g, set(g)) if len(c) > 1 or c[0] in g.get(c[0], ())]
+    # a claimed function that hands its recursion to a helper the pinned tree does not have (duplicate_children) claims that
+    # helper's cycle
+    from ..extract import known_functions
+    known = set(known_functions().get(unit_name, ()))
+    claim = set(claim)
+    if known:
+        work = [c for c in claim if c in g]
+        seen_ = set(work)
+        while work:
+            x = work.pop()
+            for y in g.get(x, ()):
+                if y not in seen_ and y not in known and u.functions[y].static:
+                    seen_.add(y)
+                    work.append(y)
+        in_cycle = {n for c in sccs for n in c}
+        for c0 in list(claim):
+            if c0 in g and c0 not in in_cycle:
+                claim |= {y for y in seen_ if y in in_cycle and y not in known}
+    nclaimed = len([c for c in claim if c in known or not known])
     ncl = 0
     for comp in sccs:
         names = set(comp)
@@ -250,7 +269,7 @@ def tab1(units, R, unit_name='cJSON.c', claim=('parse_value', 'cJSON_Duplicate_r
             R.ob('TAB1', u.functions[sorted(names)[0]], None, 'every cycle of {%s} %s' % (', '.join(sorted(names)), what),
                  not left, '%s' % sorted(fns) if not left else 'a cycle through %s does not' % sorted(left[0]),
                  key=key + ':' + ','.join(sorted(names)))
-    R.floor('TAB1', 'gated recursion cycles', ncl, len(claim))
+    R.floor('TAB1', 'gated recursion cycles', ncl, nclaimed)
 
 
 def tab1_depth_balance(units, R):
